@@ -73,3 +73,10 @@ package npm
 
 //@ func (*VersionRange).String
 //@   ensures text: result == arg0.original   [C18]
+
+// ---- range text to OR groups (C02): every "||"-separated part becomes one group, in order
+
+//@ func parseRangeGroups
+//@   loop 1 invariant len(constraintGroups) == rangeindex + 1 && (forall g int :: 0 <= g && g <= rangeindex ==> constraintGroups[g] == parseRange(strings.TrimSpace(parts[g])).0)
+//@   ensures or-groups: strings.Contains(rangeStr, "||") && result1 == nil ==> len(result0) == len(strings.Split(rangeStr, "||")) && (forall g int :: 0 <= g && g < len(result0) ==> result0[g] == parseRange(strings.TrimSpace(strings.Split(rangeStr, "||")[g])).0)   [C02]
+//@   ensures single-group: !strings.Contains(rangeStr, "||") && result1 == nil ==> len(result0) == 1 && result0[0] == parseRange(rangeStr).0   [C02]
